@@ -114,17 +114,27 @@ pub fn cli_tree(ctx: &mut Ctx) {
         let first_part: String = std::fs::read_dir(&sbx.root).unwrap().filter_map(|e| e.ok()).map(|e| e.file_name().to_string_lossy().to_string())
             .find(|n| n.contains(".part1") && !n.contains(".part1") == false && (n.ends_with(".part1") || n.to_lowercase().ends_with(".part1.pna"))).unwrap_or_else(|| "a.part1.pna".into());
         let arch: &str = if sbx.path(arch_name).exists() { arch_name } else { first_part.as_str() };
-        let xstdio = stdio && arch == "a.pna";
+        // every other multipart archive is fed to the extractor through standard input, its parts concatenated in order
+        let mut part_stream: Option<Vec<u8>> = None;
+        if split && arch != arch_name && case % 2 == 0 {
+            let mut all = vec![];
+            let mut nparts = 0;
+            for i in 1.. {
+                match std::fs::read(sbx.path(&first_part.replacen(".part1", &format!(".part{i}"), 1))) { Ok(b) => { all.extend(b); nparts += 1; } Err(_) => break }
+            }
+            if nparts >= 2 { part_stream = Some(all); ctx.count("io:parts-through-stdin"); }
+        }
+        let xstdio = (stdio && arch == "a.pna") || part_stream.is_some();
         ctx.count(&format!("archive-name:{arch_name}"));
         if xstdio { xargs.extend(["experimental", "stdio", "--extract", "--out-dir", "out"].map(String::from)); } else { xargs.extend(["extract", arch, "--out-dir", "out"].map(String::from)); }
         if enc != 0 { xargs.push(format!("--password={pw}")); }
         if ktx { xargs.push("--keep-timestamp".into()); }
         if kpx { xargs.push("--keep-permission".into()); }
         let xv: Vec<&str> = xargs.iter().map(|s| s.as_str()).collect();
-        let data = if xstdio { Some(std::fs::read(sbx.path("a.pna")).unwrap()) } else { None };
-        let xr = run_pna(&sbx, &sbx.root, &xv, data.as_deref(), 120, &[]);
+        let data = if let Some(ps) = part_stream { Some(ps) } else if xstdio { Some(std::fs::read(sbx.path("a.pna")).unwrap()) } else { None };
+        let xr = run_pna(&sbx, &sbx.root, &xv, data.as_deref(), 40, &[]);
         let attrs = json!({"create": cargs, "extract": xargs, "tree": nodes.iter().map(|n| json!({"path": n.path, "kind": n.kind, "len": n.content.len()})).collect::<Vec<_>>()});
-        if xr.crashed() || xr.hung() { ctx.violation("C07", "`pna extract` crashed or hung", json!({"case":attrs,"run":xr.brief()})); continue; }
+        if xr.crashed() || xr.hung() { ctx.violation("C07", "`pna extract` crashed or hung", json!({"case":attrs,"run":xr.brief()})); ctx.violation("C02", "`pna extract` crashed or hung on an archive `pna create` just wrote", json!({"case":attrs,"run":xr.brief()})); continue; }
         if !xr.ok() { ctx.violation("C02", "`pna extract` failed on an archive `pna create` just wrote", json!({"case":attrs,"run":xr.brief()})); continue; }
         let snap = snapshot(&sbx.path("out"));
         // ---- direct oracle: the tree is reproduced
